@@ -19,7 +19,7 @@ Theorem C16_stream_eq : forall fuel env sk fname o pending ts s im ic gs pe,
    | SOk (im', ic') =>
        if Nat.eqb (List.length gs) fuel then (s1, SErr (SEOther "RecursionError" []))
        else match pe with Some e => (s1, SErr (perr_to_serr fname e))
-                        | None => (add_imports im' s1, SOk (im', ic')) end
+                        | None => (s1, SOk (im', ic')) end
    end).
 Proof. exact C16_stream_eq_gen. Qed.
 
@@ -40,20 +40,74 @@ Theorem C16_group_prefix : forall env sk fname inc stmts s im ic s' e,
     apply_stmts env sk fname inc [st] s_mid im' ic' = (s', SErr e).
 Proof. exact apply_stmts_prefix. Qed.
 
-(* a failed parse records no imports and touches neither lock nor constants; the registry only grows by what the
-   modules imported before the failure register ... *)
+(* every import statement that takes effect is recorded (t_imports, gin's _IMPORTS) at once.  A FAILED parse has
+   therefore recorded exactly the imports of the statements that took effect before the failure, in order
+   (stmt_imports: the module of an import statement whose module is importable; imports_of: over groups): either every
+   group was applied (the text then ended in a parse error, or the recursion budget ran out), or group i failed --
+   while its references were resolved, nothing of it applied; or at its statement k, the statements before k applied.
+   It touches neither lock nor constants; the registry only grows by what the modules imported before the failure
+   register ... *)
 Theorem C16_error_leaves_flags_gen : forall fuel env sk fname o pending ts s im ic s' e gs pe,
   parse_groups fuel o pending ts = (gs, pe) -> no_includes gs ->
   parse_tokens fuel env sk fname o pending ts s im ic = (s', SErr e) ->
-  t_imports s' = t_imports s /\ t_locked s' = t_locked s /\ reg_extends env s s' /\ t_consts s' = t_consts s.
+  ((exists im' ic', consume env sk fname no_inc gs s im ic = (s', SOk (im', ic')) /\
+      t_imports s' = t_imports s ++ imports_of env gs) \/
+   (exists i g, nth_error gs i = Some g /\
+      exists s0 im0 ic0, consume env sk fname no_inc (firstn i gs) s im ic = (s0, SOk (im0, ic0)) /\
+        ((resolve_group s0 sk fname g = SErr e /\ s' = s0 /\
+          t_imports s' = t_imports s ++ imports_of env (firstn i gs)) \/
+         (exists g' k st im' ic', resolve_group s0 sk fname g = SOk g' /\ nth_error g' k = Some st /\
+            apply_stmts env sk fname no_inc (firstn k g') s0 im0 ic0 = (s', SOk (im', ic')) /\
+            apply_stmts env sk fname no_inc [st] s' im' ic' = (s', SErr e) /\
+            t_imports s' = t_imports s ++ imports_of env (firstn i gs) ++ flat_map (stmt_imports env) (firstn k g))))) /\
+  t_locked s' = t_locked s /\ reg_extends env s s' /\ t_consts s' = t_consts s.
 Proof. exact C16_error_leaves_flags_gen. Qed.
-(* ... and is untouched when imports have no side effects *)
+(* ... and is untouched when imports have no side effects (failed_parse_imports: the disjunction displayed above) *)
 Theorem C16_error_leaves_flags : forall fuel env sk fname o pending ts s im ic s' e gs pe,
   pure_imports env ->
   parse_groups fuel o pending ts = (gs, pe) -> no_includes gs ->
   parse_tokens fuel env sk fname o pending ts s im ic = (s', SErr e) ->
-  t_imports s' = t_imports s /\ t_locked s' = t_locked s /\ t_reg s' = t_reg s /\ t_consts s' = t_consts s.
+  failed_parse_imports env sk fname gs s im ic s' e /\
+  t_locked s' = t_locked s /\ t_reg s' = t_reg s /\ t_consts s' = t_consts s.
 Proof. exact C16_error_leaves_flags. Qed.
+(* the lockstep behind it: a statement list / group list that HAS been applied has recorded, import by import, exactly
+   what it returns *)
+Theorem C16_applied_statements_record_imports : forall env sk fname inc stmts s im ic s1 im1 ic1,
+  forallb (fun st => negb (is_include st)) stmts = true ->
+  apply_stmts env sk fname inc stmts s im ic = (s1, SOk (im1, ic1)) ->
+  im1 = im ++ flat_map (stmt_imports env) stmts /\ t_imports s1 = t_imports s ++ flat_map (stmt_imports env) stmts.
+Proof. exact apply_stmts_noinc_records. Qed.
+Theorem C16_applied_groups_record_imports : forall env sk fname inc gs s im ic s1 im1 ic1,
+  no_includes gs -> consume env sk fname inc gs s im ic = (s1, SOk (im1, ic1)) ->
+  im1 = im ++ imports_of env gs /\ t_imports s1 = t_imports s ++ imports_of env gs.
+Proof. exact consume_noinc_records. Qed.
+(* a successful parse: the recorded imports grow by exactly this parse's imports -- what it returns beyond what it was
+   handed; a parse call is handed none, so what it has recorded is what it returns *)
+Theorem C16_success_records_imports : forall fuel env sk fname o pending ts s im ic s' im' ic' gs pe,
+  parse_groups fuel o pending ts = (gs, pe) -> no_includes gs ->
+  parse_tokens fuel env sk fname o pending ts s im ic = (s', SOk (im', ic')) ->
+  (im' = im ++ imports_of env gs /\ t_imports s' = t_imports s ++ imports_of env gs) /\
+  t_locked s' = t_locked s /\ reg_extends env s s' /\ t_consts s' = t_consts s.
+Proof. exact C16_success_records_imports_gen. Qed.
+Theorem C16_success_records_returned_imports : forall fuel env sk fname o pending ts s s' im' ic' gs pe,
+  parse_groups fuel o pending ts = (gs, pe) -> no_includes gs ->
+  parse_tokens fuel env sk fname o pending ts s [] [] = (s', SOk (im', ic')) ->
+  t_imports s' = t_imports s ++ im'.
+Proof. exact C16_success_records_returned_imports. Qed.
+(* the code before the repair recorded a file's imports only after its last statement: after  import mod / nosuch.a = 1
+   (mod importable; as a bindings string, and as a file included by  include 'b.gin')  it had recorded nothing *)
+Theorem C16_orig_failed_parse_loses_imports :
+  parse_groups 60 (f_oracle C16OrigImports.text) false (f_tokens C16OrigImports.text) =
+    ([[SImport "mod" false None 1]; [SBind "" "nosuch" "a" (OZ 1) 2]], None) /\
+  (let '(s, r) := parse_config_orig C16OrigImports.env SkFalse "" C16OrigImports.text C16OrigImports.s0 in (t_imports s, r))
+    = (t_imports C16OrigImports.s0, SErr (SEOther "ValueError" [("", 2)])) /\
+  (let '(s, r) := parse_config_orig C16OrigImports.env SkFalse "" C16OrigImports.outer C16OrigImports.s0 in (t_imports s, r))
+    = (t_imports C16OrigImports.s0, SErr (SEOther "ValueError" [("b.gin", 2); ("", 1)])) /\
+  (let '(s, r) := parse_config C16OrigImports.env SkFalse "" C16OrigImports.text C16OrigImports.s0 in (t_imports s, r))
+    = (t_imports C16OrigImports.s0 ++ ["mod"], SErr (SEOther "ValueError" [("", 2)])) /\
+  (let '(s, r) := parse_config C16OrigImports.env SkFalse "" C16OrigImports.outer C16OrigImports.s0 in (t_imports s, r))
+    = (t_imports C16OrigImports.s0 ++ ["mod"], SErr (SEOther "ValueError" [("b.gin", 2); ("", 1)])).
+Proof. exact StmtProofs5.C16_orig_failed_parse_loses_imports. Qed.
 
 (* provenance: a successful bind records exactly the statement's own location for that parameter and leaves
    every other entry of store and provenance alone *)
@@ -73,8 +127,8 @@ Proof. exact with_loc_syntax. Qed.
 (* ---- with includes, at any depth, whatever ends the parse ---- *)
 (* flatten_px tags every group of the flattened text with its file and include chain and returns the error that
    ends the text (syntax / tokenizer error or missing file in any file at any depth), if any.  Parsing equals
-   running the tagged groups in order: same registry / constants / store / lock, and EXACTLY the same error,
-   location chain included. *)
+   running the tagged groups in order: same registry / constants / store / lock / recorded imports (sim; the imports
+   in the same order), and EXACTLY the same error, location chain included. *)
 Theorem C16_stream_eq_with_includes : forall fuel env sk fname o pending ts s im ic gs pe tg fin,
   parse_groups fuel o pending ts = (gs, pe) -> List.length gs < fuel ->
   flatten_px fuel env fname gs pe = Some (tg, fin) ->
@@ -99,6 +153,23 @@ Theorem C16_failed_parse_with_includes_located : forall fuel env sk fname o pend
         e = SEOther c ((tg_file t, stmt_line st) :: chain_of t))).
 Proof. exact StmtProofs5.C16_failed_parse_with_includes_located. Qed.
 
+(* ... and has recorded exactly the imports of those preceding statements of the flattened text, in order *)
+Theorem C16_failed_parse_with_includes_records_imports : forall fuel env sk fname o pending ts s im ic gs pe tg fin s1 e,
+  parse_groups fuel o pending ts = (gs, pe) -> List.length gs < fuel -> flatten_px fuel env fname gs pe = Some (tg, fin) ->
+  parse_tokens fuel env sk fname o pending ts s im ic = (s1, SErr e) ->
+  (exists s0, consume_tagged env sk tg s = (s0, None) /\ fin = Some e /\
+     t_imports s1 = t_imports s ++ imports_of env (map tg_stmts tg)) \/
+  (exists t1 t t2 s0 e0, tg = t1 ++ t :: t2 /\ consume_tagged env sk t1 s = (s0, None) /\
+     e = wrap_chain (chain_of t) e0 /\
+     ((resolve_group s0 sk (tg_file t) (tg_stmts t) = SErr e0 /\
+       t_imports s1 = t_imports s ++ imports_of env (map tg_stmts t1)) \/
+      exists g' pre st post s0' im' ic',
+        resolve_group s0 sk (tg_file t) (tg_stmts t) = SOk g' /\ g' = pre ++ st :: post /\
+        apply_stmts env sk (tg_file t) no_inc pre s0 [] [] = (s0', SOk (im', ic')) /\
+        apply_stmts env sk (tg_file t) no_inc [st] s0' im' ic' = (s0', SErr e0) /\
+        t_imports s1 = t_imports s ++ imports_of env (map tg_stmts t1) ++ flat_map (stmt_imports env) pre)).
+Proof. exact StmtProofs5.C16_failed_parse_with_includes_records_imports. Qed.
+
 Theorem C16_chain_once_per_level : forall ch c ch0, wrap_chain ch (SEOther c ch0) = SEOther c (ch0 ++ ch).
 Proof. exact wrap_chain_other. Qed.
 Theorem C16_syntax_error_passes_all_levels : forall ch f n, wrap_chain ch (SESyntax f n) = SESyntax f n.
@@ -113,11 +184,17 @@ Print Assumptions C16_failed_parse_is_prefix.
 Print Assumptions C16_group_prefix.
 Print Assumptions C16_error_leaves_flags_gen.
 Print Assumptions C16_error_leaves_flags.
+Print Assumptions C16_applied_statements_record_imports.
+Print Assumptions C16_applied_groups_record_imports.
+Print Assumptions C16_success_records_imports.
+Print Assumptions C16_success_records_returned_imports.
+Print Assumptions C16_orig_failed_parse_loses_imports.
 Print Assumptions C16_provenance.
 Print Assumptions C16_chain_append.
 Print Assumptions C16_syntax_untouched.
 Print Assumptions C16_stream_eq_with_includes.
 Print Assumptions C16_failed_parse_with_includes_located.
+Print Assumptions C16_failed_parse_with_includes_records_imports.
 Print Assumptions C16_chain_once_per_level.
 Print Assumptions C16_syntax_error_passes_all_levels.
 Print Assumptions C16_with_includes_nonvacuous.
